@@ -1,5 +1,6 @@
 import Insim.Drv.Util
 import Insim.Model.Track
+import Insim.Model.Reader
 import Insim.Gen.Track
 namespace Insim.Drv.C14
 open Insim Insim.Drv Insim.Track Insim.Gen.Track
@@ -11,6 +12,15 @@ def handle (ws : List String) : Option String :=
   | ["trk.dec", h] => match parseHex h with
     | some b => some (outStr vname (decode readRows b))
     | none => some "bad-op"
+  -- the same bytes from a source that hands over `per` bytes per call, through `read_exact`: value and bytes consumed
+  | ["trk.seg", h, per] => match parseHex h, per.toNat? with
+    | some b, some per =>
+      (match Reader.decodeFrom 6 (decode readRows) (Reader.chunks per b) with
+       | (.ok t, some rest) => some (s!"ok {vname t} at {b.length - rest.flatten.length}")
+       | (.ok t, none) => some (s!"ok {vname t} at -")
+       | (.err e, _) => some ("err " ++ e.toStr)
+       | (.panic, _) => some "panic")
+    | _, _ => some "bad-op"
   | ["trk.info", i] => match i.toNat? with
     | some t =>
       let wire := match encode writeRows t with | .ok b => toHex b | _ => "err"
